@@ -68,11 +68,13 @@ def isBor : TExpr → Bool
   | _ => false
 
 mutual
-/-- expressions as `type_hint` writes them with the union operator: plain names; a `|` union has at
-least two alternatives, none of them itself a `|` union (it is flat), and `None` only as the last -/
+/-- well-formed hint expressions, all spellings: plain names; a subscription has arguments (only
+`Union[]`, which the typing spelling writes for a union of `None`s, has none); a `|` union has at
+least two alternatives, none of them itself a `|` union (it is flat), and `None` only as the last.
+Contains the expressions of the `Union[…]` spelling (`wfB_of_wfU`). -/
 def wfB : TExpr → Bool
   | .atom s => plainTok s
-  | .app h args => plainTok h && !args.isEmpty && wfBL args
+  | .app h args => plainTok h && (h == sUnion || !args.isEmpty) && wfBL args
   | .bor args => decide (2 ≤ args.length) && wfBL args && args.all (fun e => !isBor e) &&
       args.dropLast.all (fun e => !isNoneE e)
 def wfBL : List TExpr → Bool
@@ -243,7 +245,9 @@ theorem pass_wfB : ∀ e, wfB e = true → Pass e := by
       · simp at hm
     rw [e0, splitPipeAux_plain (h ++ ['[']) (by simp) hp (by simp; decide)]
     cases args with
-    | nil => simp at hne
+    | nil =>
+      rw [printL_nil, List.nil_append, splitPipeAux_plain [']'] (by simp) (by simp) (by simp; decide)]
+      simp [pcs, pcsA, List.append_assoc]
     | cons a r =>
       rw [passA a r (fun x hx => ih x hx (wfBL_mem hargs x hx))]
       rw [splitPipeAux_plain [']'] (by simp) (by simp) (by simp; decide)]
@@ -457,7 +461,15 @@ theorem noNone_wfB : ∀ e, wfB e = true → NoNone e := by
     simp only [wfB, Bool.and_eq_true] at hw
     obtain ⟨⟨_, hne⟩, hargs⟩ := hw
     cases args with
-    | nil => simp at hne
+    | nil =>
+      refine ⟨by simp [pcs, pcsA], ?_, ?_⟩
+      · intro _
+        simp only [pcs, pcsA, hd]
+        exact Or.inl (by simp)
+      · intro _ hc
+        simp only [pcs] at hc
+        have : ']' ∈ sNone := by rw [← hc]; simp
+        simp [sNone] at this
     | cons a r =>
       have hm' : Mk (acc ++ h ++ ['[']) := Or.inl (by simp)
       obtain ⟨h1, h2⟩ := noNoneA a r (fun x hx => ih x hx (wfBL_mem hargs x hx)) _ hm'
